@@ -15,7 +15,7 @@ from vf.core import Reject
 RULE = (
   "case = articulated model whose joints are mostly free/ball (roots and inside chains, mixed with hinge/slide), sites, cameras (all tracking modes), optional mocap body, "
   "damping, optional motors, contacts disabled or a plane+pile scene; integrator in {Euler, implicitfast, implicit, RK4}, dt in [1e-4, 5e-2], initial angular speed scale in "
-  "{3, 30, 300, 1000} rad/s, initial free/ball/mocap quaternions scaled by 0.1..10 (unnormalised), random qfrc_applied/xfrc_applied/ctrl redrawn every 25 steps, "
+  "{0 (at rest, unforced), 3, 30, 300, 1000} rad/s, initial free/ball/mocap quaternions scaled by 0.1..10 (unnormalised), random qfrc_applied/xfrc_applied/ctrl redrawn every 25 steps, "
   "40-200 steps (thorough 200-800), 1-2 worlds; oracle after EVERY step and after a final forward: each free/ball quaternion of d.qpos has | |q|-1 | <= 1e-5, xquat unit, "
   "xmat/ximat/geom_xmat/site_xmat/cam_xmat satisfy |R^T R - I|_F <= 1e-4 and det > 0; when a contact-free world goes non-finite its last <= 64 steps are re-done in lock-step "
   "with MuJoCo C (mj_step from MJWarp's own state): reported only if a single step in a moderate, well-conditioned regime (|qvel| <= 1e3, |qvel|*dt <= 1, |qpos| <= 20, no MuJoCo warning, perturbation-insensitive) deviates by > 2e-2, "
@@ -55,7 +55,7 @@ def strategy(tier):
       integrator=st.sampled_from(_INTEG),
       eulerdamp=st.booleans(),
       dt=st.sampled_from([1e-4, 1e-3, 5e-3, 2e-2, 5e-2]),
-      wscale=st.sampled_from([3.0, 30.0, 300.0, 1000.0]),
+      wscale=st.sampled_from([0.0, 3.0, 30.0, 300.0, 1000.0]),  # 0: everything at rest and unforced - free bodies then keep an exactly zero angular velocity
       vscale=st.sampled_from([0.0, 1.0, 10.0]),
       fscale=st.sampled_from([0.0, 1.0, 30.0]),
       qscale=st.sampled_from(["unit", "wide", "wide"]),
@@ -81,7 +81,7 @@ def _quat_slots(mjm):
 def _initial(mjm, case, w, slots):
   g = np.random.default_rng([case["seed"], w, 1])
   s = H.rand_state(mjm, case["seed"] + 17 * w, sigma=0.3, vel=1.0, unnorm=False, applied=False, mocap=True)
-  qpos, qvel = np.array(s["qpos"]), case["vscale"] * np.array(s["qvel"])
+  qpos, qvel = np.array(s["qpos"]), (case["vscale"] if case["wscale"] > 0 else 0.0) * np.array(s["qvel"])
   for qa, da in slots:
     wv = g.normal(size=3)
     wv *= case["wscale"] * g.uniform(0.2, 1.0) / max(np.linalg.norm(wv), 1e-9)
@@ -97,7 +97,7 @@ def _initial(mjm, case, w, slots):
 def _forces(mjm, case, w, k):
   """Inputs applied from step k on (redrawn every 25 steps)."""
   g = np.random.default_rng([case["seed"], w, 2, k // 25])
-  f = case["fscale"]
+  f = case["fscale"] if case["wscale"] > 0 else 0.0
   x = f * g.normal(size=(mjm.nbody, 6))
   x[0] = 0
   return dict(qfrc_applied=H.f32(f * g.normal(size=mjm.nv)), xfrc_applied=H.f32(x), ctrl=H.f32(f * g.normal(size=mjm.nu)))
@@ -246,6 +246,11 @@ def check(case, rec):
   slots = _quat_slots(mjm)
   if mjm.nv == 0 or not slots:
     raise Reject("no free/ball joint")
+  if case["wscale"] == 0 and case["seed"] % 2 == 0:
+    # at rest and weightless: nothing ever produces an angular velocity, so every step integrates the quaternions with omega == 0 exactly
+    mjm = mjm.__copy__()
+    mjm.opt.gravity[:] = 0.0
+    rec.cls("at-rest:weightless")
   n = case["nworld"]
   m = H.put_model(mjm)
   d = H.make_data(mjm, nworld=n, nconmax=120, njmax=400)
